@@ -15,7 +15,7 @@ from sim import specs, canon, core, seams
 
 ID = "C10"
 DEFAULT_SEED = {"quick": 1010, "thorough": 2010}
-TIERS = {"quick": {"runs": 260, "budget_s": 80, "cap_s": 120},
+TIERS = {"quick": {"runs": 600, "budget_s": 100, "cap_s": 120},
          "thorough": {"runs": 12000, "budget_s": 1500, "cap_s": 180}}
 STUBS = ["clients (1-3 scripted users, interleaved by the PRNG scheduler)",
          "SimSolver outage on history-making optimize() calls", "SimDisk (in-memory) behind eaopack.serialization.open"]
